@@ -768,6 +768,25 @@ func genSpec(rng *rand.Rand, seed int64, idx int) histSpec {
 		}
 		sp.Scripts = append(sp.Scripts, sc)
 	}
+	// Cold-shutdown variant: worker 1 has served no request when the concurrent
+	// phase starts; its Shutdown() then races the first sticky-aware requests
+	// (lazy reaper start vs. reaper stop).
+	if sp.StratName == "shutdown" && (idx/len(strata))%2 == 0 && len(sp.Scripts) >= 2 {
+		sp.Workers = 2
+		for i := range sp.PreOpen {
+			sp.PreOpen[i].Worker = 0
+		}
+		for g := range sp.Scripts {
+			if len(sp.Scripts[g]) == 0 {
+				continue
+			}
+			if g == 0 {
+				sp.Scripts[g][0] = scriptOp{Kind: "shutdown", Worker: 1}
+			} else {
+				sp.Scripts[g][0] = scriptOp{Kind: "open", Worker: 1, Ident: rng.IntN(sp.Idents)}
+			}
+		}
+	}
 	return sp
 }
 
